@@ -387,6 +387,13 @@ func newCmd_SplitCar() *cli.Command {
 				metadata.CarPieces.CarPieces[idx].PaddedSize = paddedPieceSize
 			}
 
+			// csv.Writer buffers and keeps the first write error to itself: ask for it,
+			// otherwise a failed write leaves an empty or truncated csv behind a success.
+			w.Flush()
+			if err := w.Error(); err != nil {
+				return fmt.Errorf("failed to write metatadata csv: %w", err)
+			}
+
 			err = writeMetadata(metadata, epoch)
 			if err != nil {
 				return fmt.Errorf("failed to write metatadata yaml: %w", err)
